@@ -23,11 +23,12 @@ class Ctx:
         elif variant == "r1":
             self.dims = DimensionSet(dim_list=[TDIM, Dimension(name="Region", letter="r", items=["r1"])])
             cut = lambda a: a[:, :1]
-            lab = lambda v: FlodymArray(dims=self.dims.get_subset(("r",)), values=np.array(v[:1]))
+            lab = lambda v: FlodymArray(dims=self.dims.get_subset(("r",)), values=np.array(v[:1]).astype(int) if all(float(x).is_integer() for x in v) else np.array(v[:1]))
         else:
             self.dims = DimensionSet(dim_list=[TDIM, Dimension(name="Region", letter="r", items=["r1", "r2"])])
             cut = lambda a: a
-            lab = lambda v: FlodymArray(dims=self.dims.get_subset(("r",)), values=np.array(v))
+            # (integer-valued parameter arrays keep an integer dtype, as a user would write np.array([4, 6]))
+            lab = lambda v: FlodymArray(dims=self.dims.get_subset(("r",)), values=np.array(v).astype(int) if all(float(x).is_integer() for x in v) else np.array(v))
         # driver 2 is all zero (a phase-out / counterfactual run), drivers 1 and 3 differ
         self.drivers = {1: cut(np.array([[1.0, 4.0], [2.0, 0.0], [0.0, 3.0], [5.0, 1.0]])),
                         2: cut(np.zeros((4, 2))),
@@ -59,10 +60,15 @@ CLASSES = [("InflowDrivenDSM", None), ("StockDrivenDSM", "manual"), ("StockDrive
 COMBOS = [(lt, c, dv) for lt in LIFETIME_NAMES for c in CLASSES for dv in ("r2", "t", "r1")]
 
 
+def lm_options(C):
+    """quadrature options of the lifetime model for this context: every second dims variant uses a 4-point rule"""
+    return {"n_pts_per_interval": 4, "inflow_at": "end"} if C.variant in ("t",) or getattr(C, "quad", False) else {}
+
+
 def fresh(C, lt, cls_name, solver, d, p):
     DIMS = C.dims
     lcls, prms = C.lifetimes[lt]
-    lm = lcls(dims=DIMS, time_letter="t", **prms[p])
+    lm = lcls(dims=DIMS, time_letter="t", **lm_options(C), **prms[p])
     kw = dict(dims=DIMS, time_letter="t", lifetime_model=lm)
     if solver:
         kw["solver"] = solver
@@ -107,6 +113,9 @@ def build_system(C, lt, cls_name, solver):
     stocks = flodym.make_empty_stocks(definition.stocks, processes, DIMS)
     if solver:
         stocks["use"].solver = solver   # (the definition's solver is checked under C18)
+    opts = lm_options(C)
+    if opts:        # a lifetime model with a multi-point quadrature rule, handed to the stock
+        stocks["use"].lifetime_model = lcls(dims=DIMS, time_letter="t", **opts)
     sysm = Sys(dims=DIMS, processes=processes, flows={}, stocks=stocks,
                parameters={"driver": flodym.Parameter(dims=DIMS, name="driver")})
     return sysm
@@ -140,7 +149,7 @@ def run_history(vec):
                 elif op == "read_sf":
                     sf = np.array(st.lifetime_model.sf)
                     pdf = np.array(st.lifetime_model.pdf)       # reading the outflow table too (both are cached lazily)
-                    ref = lcls(dims=DIMS, time_letter="t", **prms[stp["prm"]])
+                    ref = lcls(dims=DIMS, time_letter="t", **lm_options(C), **prms[stp["prm"]])
                     if not same(sf, ref.sf) or not same(pdf, ref.pdf):
                         problems.append(where + "{C17} the survival / outflow table read does not belong to the current parameters")
                 elif op == "compute":
